@@ -4,5 +4,6 @@ CONSTANTS
   N = 4
   Restarts = {0}
   Dups = {0}
+  DupPos = "end"
 INVARIANT Emit
 CHECK_DEADLOCK FALSE
